@@ -1,3 +1,447 @@
-/- C15 — property theorems (stub: the property is not claimed yet). -/
+/-
+  C15 — XPath results do not depend on evaluation history, caching or threads.
+
+  Property theorems only.  Model: AHP/Model/Cache.lean (`_cache.py`, `XPathExpression.__init__`, the
+  per-thread quantum machine, the lock-level small-step programs).  Helper lemmas and the cache-free
+  specification `specStep`/`specRun`: AHP/Lemmas/Cache.lean, AHP/Lemmas/CacheHist.lean.
+
+  Parameters everywhere: `compile : E → Option V` (the XPath compiler; `none` = raises), `key : E → K`
+  (sha1 of the text — injective by assumption), `eval : V → T → R` (evaluation; `R` includes run-time
+  errors).  What `eval ∘ compile` *is* is C14; here only that nothing else enters a result.
+-/
+import AHP.Lemmas.CacheHist
+import AHP.Gen.Tables
 namespace AHP.C15
+open AHP AHP.Cache
+
+section
+variable {E K V T R : Type} [DecidableEq K]
+variable (compile : E → Option V) (key : E → K) (eval : V → T → R)
+
+/-! #### C15a — the cache invariant, for every bound `MAX > CLEAR` and every history -/
+
+/-- C15a: after every event of every history (compile, evaluate, reuse; valid, invalid and failing
+    expressions in any order) the recency list is duplicate-free, the map's keys are exactly the
+    recency list, and there are at most `MAX` of them. -/
+theorem inv_at_every_point (MAX CLEAR : Nat) (hb : CLEAR < MAX) (evs : List (Event E T)) :
+    ∀ p ∈ run compile key eval MAX CLEAR World.empty evs, Inv MAX p.2 :=
+  run_inv hb evs World.empty (Inv.empty MAX)
+
+/-- C15a (size bound as the property words it): the map never holds more than `MAX` entries. -/
+theorem size_bound (MAX CLEAR : Nat) (hb : CLEAR < MAX) (evs : List (Event E T)) :
+    ∀ p ∈ run compile key eval MAX CLEAR World.empty evs,
+      (dictKeys p.2.map).length ≤ MAX ∧ p.2.recent.length ≤ MAX := by
+  intro p hp
+  have h := inv_at_every_point compile key eval MAX CLEAR hb evs p hp
+  exact ⟨h.keys_length ▸ h.bound, h.bound⟩
+
+/-- C15a (coherence): whatever the map holds under a key is the compiled form of that expression —
+    for every bound, even a broken one. -/
+theorem coherent_at_every_point (hinj : Function.Injective key) (MAX CLEAR : Nat) (evs : List (Event E T)) :
+    ∀ p ∈ run compile key eval MAX CLEAR World.empty evs, Coh compile key p.2 :=
+  run_coh hinj evs World.empty (Coh.empty compile key)
+
+/-- C15a (table obligation): the shipped constants, regenerated from `_cache.py` on every run,
+    satisfy the hypothesis of the theorems above. -/
+theorem shipped_bound_ok : 1 ≤ Gen.clearAtOneTime ∧ Gen.clearAtOneTime < Gen.maxCachedExpressions := by
+  decide
+
+/-- C15a instantiated for the shipped constants. -/
+theorem shipped_inv (evs : List (Event E T)) :
+    ∀ p ∈ run compile key eval Gen.maxCachedExpressions Gen.clearAtOneTime World.empty evs,
+      Inv Gen.maxCachedExpressions p.2 :=
+  inv_at_every_point compile key eval _ _ shipped_bound_ok.2 evs
+
+/-- C15a instantiated for the bound the exhaustive correspondence run patches in (3 / evict 1). -/
+theorem small_inv (evs : List (Event E T)) :
+    ∀ p ∈ run compile key eval 3 1 World.empty evs, Inv 3 p.2 :=
+  inv_at_every_point compile key eval 3 1 (by decide) evs
+
+/-! #### C15b — results depend on the expression text and the tree only -/
+
+/-- C15b: in every history, from the empty cache, the observations are those of the cache-free
+    specification: a query shows `eval (compile e) t`, a reused object shows `eval` of the form it was
+    compiled to, a failing compile shows the failure — whether the compiled form was fresh, taken from
+    the cache, evicted and re-entered, and whatever failed in between.  Holds for *every* bound. -/
+theorem results_independent_of_history (hinj : Function.Injective key) (MAX CLEAR : Nat)
+    (evs : List (Event E T)) :
+    (run compile key eval MAX CLEAR World.empty evs).map (·.1) = specRun compile eval [] evs :=
+  run_obs_eq_spec hinj evs World.empty (Coh.empty compile key)
+
+/-- C15b, pointwise: after *any* history `h` a query of `e` on `t` shows exactly what it shows on an
+    empty cache. -/
+theorem query_after_any_history (hinj : Function.Injective key) (MAX CLEAR : Nat)
+    (h : List (Event E T)) (e : E) (t : T) :
+    (step compile key eval MAX CLEAR (exec compile key eval MAX CLEAR World.empty h) (.query e t)).2
+      = (step compile key eval MAX CLEAR World.empty (.query e t)).2 := by
+  have hc := @exec_coh E K V T R _ compile key eval MAX CLEAR hinj h World.empty (Coh.empty compile key)
+  have h1 := (@step_spec E K V T R _ compile key eval MAX CLEAR hinj _ hc (.query e t)).2
+  have h2 := (@step_spec E K V T R _ compile key eval MAX CLEAR hinj World.empty (Coh.empty compile key) (.query e t)).2
+  have a := congrArg Prod.snd h1
+  have b := congrArg Prod.snd h2
+  simp only [specStep] at a b
+  rw [a, b]
+  cases compile e <;> rfl
+
+/-- C15b for two histories: the same query gives the same answer at the end of any two histories. -/
+theorem query_same_in_any_two_histories (hinj : Function.Injective key) (MAX CLEAR : Nat)
+    (h₁ h₂ : List (Event E T)) (e : E) (t : T) :
+    (step compile key eval MAX CLEAR (exec compile key eval MAX CLEAR World.empty h₁) (.query e t)).2
+      = (step compile key eval MAX CLEAR (exec compile key eval MAX CLEAR World.empty h₂) (.query e t)).2 := by
+  rw [query_after_any_history compile key eval hinj, query_after_any_history compile key eval hinj]
+
+/-! #### C15c — schedules -/
+
+/-- The invariant of a system of threads: cache invariant and coherence, and every thread is on track
+    for its solo specification. -/
+structure SysOK (MAX : Nat) (evss : List (List (Event E T))) (s : Sys E K V T R) : Prop where
+  inv : Inv MAX s.cache
+  coh : Coh compile key s.cache
+  len : s.threads.length = evss.length
+  thr : ∀ i th, s.threads[i]? = some th → ThreadOK compile eval th (specRun compile eval [] (evss.getD i []))
+
+theorem sysOK_init (MAX : Nat) (evss : List (List (Event E T))) :
+    SysOK compile key eval MAX evss (Sys.init evss : Sys E K V T R) := by
+  refine ⟨Inv.empty MAX, Coh.empty compile key, by simp [Sys.init], ?_⟩
+  intro i th h
+  simp only [Sys.init, List.getElem?_map] at h
+  cases hi : evss[i]? with
+  | none => simp [hi] at h
+  | some evs =>
+    simp only [hi, Option.map_some, Option.some.injEq] at h
+    subst h
+    have : evss.getD i [] = evs := by simp [List.getD, hi]
+    rw [this]
+    exact ThreadOK.init evs
+
+theorem sysOK_step (hinj : Function.Injective key) (MAX CLEAR : Nat) (hb : CLEAR < MAX)
+    (evss : List (List (Event E T))) (s : Sys E K V T R) (h : SysOK compile key eval MAX evss s) (i : Nat) :
+    SysOK compile key eval MAX evss (sysStep compile key eval MAX CLEAR s i) := by
+  unfold sysStep
+  cases hth : s.threads[i]? with
+  | none => exact h
+  | some th =>
+    simp only
+    have hok := h.thr i th hth
+    have ⟨h1, h2⟩ := tstep_ok (compile := compile) (key := key) (eval := eval) (MAX := MAX) (CLEAR := CLEAR) hinj h.coh hok
+    have h3 := tstep_inv (compile := compile) (key := key) (eval := eval) (MAX := MAX) (CLEAR := CLEAR) hb th h.inv
+    generalize tstep compile key eval MAX CLEAR s.cache th = p at *
+    obtain ⟨c, th'⟩ := p
+    refine ⟨h3, h1, by simp [h.len], ?_⟩
+    intro j tj hj
+    simp only at hj
+    rw [List.getElem?_set] at hj
+    split at hj
+    · rename_i hij
+      subst hij
+      split at hj
+      · injection hj with hj; subst hj; exact h2
+      · cases hj
+    · exact h.thr j tj hj
+
+/-- C15c: for every number of threads, every event list per thread and every schedule, at every
+    point of the schedule: the cache invariant and coherence hold, and every thread has observed
+    exactly a prefix of its solo specification — with `query_after_any_history`, what it gets alone. -/
+theorem every_schedule (hinj : Function.Injective key) (MAX CLEAR : Nat) (hb : CLEAR < MAX)
+    (evss : List (List (Event E T))) (sched : List Nat) :
+    SysOK compile key eval MAX evss (sysRun compile key eval MAX CLEAR (Sys.init evss) sched) := by
+  unfold sysRun
+  suffices ∀ s, SysOK compile key eval MAX evss s →
+      SysOK compile key eval MAX evss (sched.foldl (sysStep compile key eval MAX CLEAR) s) from
+    this _ (sysOK_init compile key eval MAX evss)
+  induction sched with
+  | nil => intro s h; exact h
+  | cons i rest ih =>
+    intro s h
+    exact ih _ (sysOK_step compile key eval hinj MAX CLEAR hb evss s h i)
+
+/-- C15c (results): a thread that has finished under any schedule has observed exactly its solo results. -/
+theorem finished_thread_solo_results (hinj : Function.Injective key) (MAX CLEAR : Nat) (hb : CLEAR < MAX)
+    (evss : List (List (Event E T))) (sched : List Nat) (i : Nat) (th : Thread E V T R)
+    (hth : (sysRun compile key eval MAX CLEAR (Sys.init evss) sched).threads[i]? = some th)
+    (hdone : th.todo = []) :
+    th.obs = specRun compile eval [] (evss.getD i []) := by
+  have h := (every_schedule compile key eval hinj MAX CLEAR hb evss sched).thr i th hth
+  have := h.obs
+  rw [hdone] at this
+  simpa [specRun] using this
+
+/-- C15c (no step blocks, every schedule runs to completion): an unfinished thread can always take its
+    quantum, and the quantum strictly decreases what it has left (at most two quanta per event). -/
+theorem unfinished_thread_progresses (hinj : Function.Injective key) (MAX CLEAR : Nat) (hb : CLEAR < MAX)
+    (evss : List (List (Event E T))) (sched : List Nat) (i : Nat) (th : Thread E V T R)
+    (hth : (sysRun compile key eval MAX CLEAR (Sys.init evss) sched).threads[i]? = some th)
+    (hne : th.todo ≠ []) (c : State K V) :
+    (tstep compile key eval MAX CLEAR c th).2.measure < th.measure :=
+  tstep_measure ((every_schedule compile key eval hinj MAX CLEAR hb evss sched).thr i th hth) hne
+
+end
+
+/-! #### C15c, lock level — the critical sections release on every path, nothing deadlocks -/
+
+section Lock
+variable {K V : Type} [DecidableEq K]
+
+/-- A lock-level configuration: the shared cell and one program point per thread. -/
+structure LSys (K V : Type) where
+  sh : Shared K V
+  pcs : List (Pc K V)
+
+/-- Thread `i` moves; `none` = it is blocked on `acquire` (or does not exist). -/
+def lsysStep (MAX CLEAR : Nat) (s : LSys K V) (i : Nat) : Option (LSys K V) :=
+  match s.pcs[i]? with
+  | none => none
+  | some pc =>
+    match lstep MAX CLEAR s.sh pc with
+    | none => none
+    | some (sh', pc') => some ⟨sh', s.pcs.set i pc'⟩
+
+/-- Mutual exclusion + the lock bit says whether somebody is inside + the data invariant. -/
+structure LockInv (MAX : Nat) (s : LSys K V) : Prop where
+  excl : ∀ (i j : Nat) (pi pj : Pc K V), s.pcs[i]? = some pi → s.pcs[j]? = some pj → pi.holds = true → pj.holds = true → i = j
+  held : s.sh.held = true ↔ ∃ (i : Nat) (pc : Pc K V), s.pcs[i]? = some pc ∧ pc.holds = true
+  inv : Inv MAX s.sh.cache
+
+/-- Facts about one lock-level step of one thread. -/
+theorem lstep_facts (MAX CLEAR : Nat) (hb : CLEAR < MAX) (sh sh' : Shared K V) (pc pc' : Pc K V)
+    (hinv : Inv MAX sh.cache) (hheld : pc.holds = true → sh.held = true)
+    (hl : lstep MAX CLEAR sh pc = some (sh', pc')) :
+    (pc'.holds = true → (pc.holds = true ∨ sh.held = false)) ∧
+    ((pc.holds = true ∨ pc'.holds = true) → sh'.held = pc'.holds) ∧
+    (pc.holds = false → pc'.holds = false → sh'.held = sh.held) ∧
+    Inv MAX sh'.cache := by
+  cases pc with
+  | getAcquire k =>
+    simp only [lstep] at hl
+    split at hl
+    · cases hl
+    · rename_i hh
+      simp only [Option.some.injEq, Prod.mk.injEq] at hl
+      obtain ⟨rfl, rfl⟩ := hl
+      simp only [Bool.not_eq_true] at hh
+      simp [Pc.holds, hinv, hh]
+  | getBody k =>
+    simp only [lstep, Option.some.injEq, Prod.mk.injEq] at hl
+    obtain ⟨rfl, rfl⟩ := hl
+    have hh : sh.held = true := hheld rfl
+    simp [Pc.holds, get_inv hinv, hh]
+  | getRelease r =>
+    simp only [lstep, Option.some.injEq, Prod.mk.injEq] at hl
+    obtain ⟨rfl, rfl⟩ := hl
+    simp [Pc.holds, hinv]
+  | setAcquire k v f =>
+    simp only [lstep] at hl
+    split at hl
+    · cases hl
+    · rename_i hh
+      simp only [Option.some.injEq, Prod.mk.injEq] at hl
+      obtain ⟨rfl, rfl⟩ := hl
+      simp only [Bool.not_eq_true] at hh
+      simp [Pc.holds, hinv, hh]
+  | setBody k v f =>
+    have hh : sh.held = true := hheld rfl
+    simp only [lstep] at hl
+    split at hl
+    · simp only [Option.some.injEq, Prod.mk.injEq] at hl
+      obtain ⟨rfl, rfl⟩ := hl
+      simp [Pc.holds, hinv, hh]
+    · simp only [Option.some.injEq, Prod.mk.injEq] at hl
+      obtain ⟨rfl, rfl⟩ := hl
+      simp [Pc.holds, set_inv hb hinv, hh]
+  | setRelease =>
+    simp only [lstep, Option.some.injEq, Prod.mk.injEq] at hl
+    obtain ⟨rfl, rfl⟩ := hl
+    simp [Pc.holds, hinv]
+  | setFail =>
+    simp only [lstep, Option.some.injEq, Prod.mk.injEq] at hl
+    obtain ⟨rfl, rfl⟩ := hl
+    simp [Pc.holds, hinv]
+  | done r x =>
+    simp only [lstep, Option.some.injEq, Prod.mk.injEq] at hl
+    obtain ⟨rfl, rfl⟩ := hl
+    simp [Pc.holds, hinv]
+
+/-- C15c (lock): every step of every thread keeps mutual exclusion, the meaning of the lock bit, and
+    the cache invariant — the data is only ever touched by the unique lock holder, one whole
+    `get`/`set` at a time. -/
+theorem lock_inv_step (MAX CLEAR : Nat) (hb : CLEAR < MAX) (s s' : LSys K V) (i : Nat)
+    (h : LockInv MAX s) (hs : lsysStep MAX CLEAR s i = some s') : LockInv MAX s' := by
+  unfold lsysStep at hs
+  cases hpc : s.pcs[i]? with
+  | none => simp [hpc] at hs
+  | some pc =>
+    simp only [hpc] at hs
+    cases hl : lstep MAX CLEAR s.sh pc with
+    | none => simp [hl] at hs
+    | some q =>
+      obtain ⟨sh', pc'⟩ := q
+      simp only [hl, Option.some.injEq] at hs
+      subst hs
+      have hilt : i < s.pcs.length := by
+        rcases Nat.lt_or_ge i s.pcs.length with h1 | h1
+        · exact h1
+        · rw [List.getElem?_eq_none_iff.mpr h1] at hpc; cases hpc
+      obtain ⟨k1, k2, k3, k4⟩ := lstep_facts MAX CLEAR hb s.sh sh' pc pc' h.inv
+        (fun hx => h.held.mpr ⟨i, pc, hpc, hx⟩) hl
+      -- the other threads are unchanged
+      have hother : ∀ j pj, j ≠ i → ((s.pcs.set i pc')[j]? = some pj ↔ s.pcs[j]? = some pj) := by
+        intro j pj hji
+        rw [List.getElem?_set]
+        have : ¬ i = j := fun e => hji e.symm
+        simp [this]
+      have hself : (s.pcs.set i pc')[i]? = some pc' := by
+        rw [List.getElem?_set]; simp [hilt]
+      refine ⟨?_, ?_, k4⟩
+      · -- mutual exclusion
+        intro a b pa pb ha hb' hpa hpb
+        by_cases hai : a = i
+        · by_cases hbi : b = i
+          · rw [hai, hbi]
+          · subst hai
+            rw [hself] at ha; injection ha with ha; subst ha
+            have hb2 := (hother b pb hbi).mp hb'
+            rcases k1 hpa with hold | hfree
+            · exact h.excl _ _ _ _ hpc hb2 hold hpb
+            · have : s.sh.held = true := h.held.mpr ⟨b, pb, hb2, hpb⟩
+              rw [this] at hfree; cases hfree
+        · by_cases hbi : b = i
+          · subst hbi
+            rw [hself] at hb'; injection hb' with hb'; subst hb'
+            have ha2 := (hother a pa hai).mp ha
+            rcases k1 hpb with hold | hfree
+            · exact h.excl _ _ _ _ ha2 hpc hpa hold
+            · have : s.sh.held = true := h.held.mpr ⟨a, pa, ha2, hpa⟩
+              rw [this] at hfree; cases hfree
+          · exact h.excl _ _ _ _ ((hother a pa hai).mp ha) ((hother b pb hbi).mp hb') hpa hpb
+      · -- the lock bit
+        show sh'.held = true ↔ _
+        constructor
+        · intro hh
+          cases hx : pc'.holds with
+          | true => exact ⟨i, pc', hself, hx⟩
+          | false =>
+            cases hy : pc.holds with
+            | true => rw [k2 (Or.inl hy), hx] at hh; cases hh
+            | false =>
+              rw [k3 hy hx] at hh
+              obtain ⟨j, pj, hj, hpj⟩ := h.held.mp hh
+              have hji : j ≠ i := by
+                intro e; subst e
+                rw [hpc] at hj; injection hj with hj; subst hj
+                rw [hy] at hpj; cases hpj
+              exact ⟨j, pj, (hother j pj hji).mpr hj, hpj⟩
+        · rintro ⟨j, pj, hj, hpj⟩
+          by_cases hji : j = i
+          · subst hji
+            rw [hself] at hj; injection hj with hj; subst hj
+            rw [k2 (Or.inr hpj)]; exact hpj
+          · have hj2 := (hother j pj hji).mp hj
+            have hheld : s.sh.held = true := h.held.mpr ⟨j, pj, hj2, hpj⟩
+            have hpcf : pc.holds = false := by
+              cases hx : pc.holds with
+              | false => rfl
+              | true => exact absurd (h.excl _ _ _ _ hpc hj2 hx hpj).symm hji
+            have hpcf' : pc'.holds = false := by
+              cases hx : pc'.holds with
+              | false => rfl
+              | true =>
+                rcases k1 hx with a | a
+                · rw [hpcf] at a; cases a
+                · rw [hheld] at a; cases a
+            rw [k3 hpcf hpcf']; exact hheld
+
+/-- C15c (no deadlock): in every configuration satisfying the lock invariant in which some thread is
+    not finished, some unfinished thread can move. -/
+theorem no_deadlock (MAX CLEAR : Nat) (s : LSys K V) (h : LockInv MAX s)
+    (hun : ∃ (i : Nat) (pc : Pc K V), s.pcs[i]? = some pc ∧ pc.isDone = false) :
+    ∃ (i : Nat) (pc : Pc K V), s.pcs[i]? = some pc ∧ pc.isDone = false ∧ (lsysStep MAX CLEAR s i).isSome = true := by
+  cases hh : s.sh.held with
+  | true =>
+    obtain ⟨j, pj, hj, hpj⟩ := h.held.mp hh
+    refine ⟨j, pj, hj, ?_, ?_⟩
+    · cases pj <;> simp [Pc.holds, Pc.isDone] at hpj ⊢
+    · unfold lsysStep
+      simp only [hj]
+      cases pj with
+      | setBody k v f => cases f <;> simp [lstep]
+      | getBody k => simp [lstep]
+      | getRelease r => simp [lstep]
+      | setRelease => simp [lstep]
+      | setFail => simp [lstep]
+      | getAcquire k => simp [Pc.holds] at hpj
+      | setAcquire k v f => simp [Pc.holds] at hpj
+      | done r x => simp [Pc.holds] at hpj
+  | false =>
+    obtain ⟨i, pc, hi, hpc⟩ := hun
+    refine ⟨i, pc, hi, hpc, ?_⟩
+    unfold lsysStep
+    simp only [hi]
+    have hnh : pc.holds = false := by
+      cases hx : pc.holds with
+      | false => rfl
+      | true =>
+        have := h.held.mpr ⟨i, pc, hi, hx⟩
+        rw [hh] at this; cases this
+    cases pc <;> simp [Pc.holds, Pc.isDone] at hnh hpc <;> simp [lstep, hh]
+
+/-- C15c (all exits release): from any program point inside a critical section, the thread's own next
+    steps (never blocked) reach `done` with the lock released within two steps — including the
+    exception path of `setCachedExpression` and both return paths of `getCachedExpression`. -/
+theorem releases_on_all_paths (MAX CLEAR : Nat) (sh : Shared K V) (pc : Pc K V) (hp : pc.holds = true) :
+    ∃ sh1 pc1, lstep MAX CLEAR sh pc = some (sh1, pc1) ∧
+      ((pc1.isDone = true ∧ sh1.held = false) ∨
+       ∃ sh2 pc2, lstep MAX CLEAR sh1 pc1 = some (sh2, pc2) ∧ pc2.isDone = true ∧ sh2.held = false) := by
+  cases pc <;> simp [Pc.holds] at hp
+  · exact ⟨_, _, rfl, Or.inr ⟨_, _, rfl, rfl, rfl⟩⟩
+  · exact ⟨_, _, rfl, Or.inl ⟨rfl, rfl⟩⟩
+  · rename_i k v f
+    cases f
+    · exact ⟨_, _, rfl, Or.inr ⟨_, _, rfl, rfl, rfl⟩⟩
+    · exact ⟨_, _, rfl, Or.inr ⟨_, _, rfl, rfl, rfl⟩⟩
+  · exact ⟨_, _, rfl, Or.inl ⟨rfl, rfl⟩⟩
+  · exact ⟨_, _, rfl, Or.inl ⟨rfl, rfl⟩⟩
+
+/-- C15c (atomicity): one whole critical section of `getCachedExpression`, run without interruption,
+    is exactly the model's `get` — and likewise `set`; so "each cache operation is one atomic step"
+    is what the lock-level programs implement. -/
+theorem get_section_is_get (MAX CLEAR : Nat) (c : State K V) (k : K) :
+    ∃ sh1 pc1 sh2 pc2 sh3,
+      lstep MAX CLEAR ⟨false, c⟩ (.getAcquire k) = some (sh1, pc1) ∧
+      lstep MAX CLEAR sh1 pc1 = some (sh2, pc2) ∧
+      lstep MAX CLEAR sh2 pc2 = some (sh3, .done (get c k).2 false) ∧
+      sh3.cache = (get c k).1 ∧ sh3.held = false :=
+  ⟨_, _, _, _, _, rfl, rfl, rfl, rfl, rfl⟩
+
+theorem set_section_is_set (MAX CLEAR : Nat) (c : State K V) (k : K) (v : V) :
+    ∃ sh1 pc1 sh2 pc2 sh3,
+      lstep MAX CLEAR ⟨false, c⟩ (.setAcquire k v false) = some (sh1, pc1) ∧
+      lstep MAX CLEAR sh1 pc1 = some (sh2, pc2) ∧
+      lstep MAX CLEAR sh2 pc2 = some (sh3, .done none false) ∧
+      sh3.cache = set MAX CLEAR c k v ∧ sh3.held = false :=
+  ⟨_, _, _, _, _, rfl, rfl, rfl, rfl, rfl⟩
+
+end Lock
+
+/-! #### Why the obligation is strict: `CLEAR = MAX` breaks bound and key agreement -/
+
+/-- With `CLEAR = MAX` (here 2/2) `recent[-0:]` is the whole list: three stores leave a recency
+    list of length 3 over an empty map — `Inv` fails on both counts.  (Reproduced on the real cache
+    with the constants patched; this is why `shipped_bound_ok` demands `CLEAR < MAX`.) -/
+theorem clear_eq_max_breaks :
+    let s : State Nat Nat := set 2 2 (set 2 2 (set 2 2 State.empty 0 0) 1 1) 2 2
+    s.recent = [0, 1, 2] ∧ s.map = [] := by decide
+
+/-! #### Non-vacuity -/
+
+/-- A history with hits, a compile error, an eviction and a re-entry under the bound 3/1:
+    the final cache state and all observations, computed by the model. -/
+example :
+    let compile : Nat → Option Nat := fun e => if e = 9 then none else some e
+    let evs : List (Event Nat Nat) := [.query 0 0, .query 1 0, .query 0 0, .query 9 0, .query 2 0, .query 3 0, .query 0 0]
+    (run compile id (fun v t => v * 10 + t) 3 1 World.empty evs).map (fun p => (p.1, p.2.recent))
+      = [(.result 0, [0]), (.result 10, [0, 1]), (.result 0, [1, 0]), (.compileError, [1, 0]),
+         (.result 20, [1, 0, 2]), (.result 30, [2, 3]), (.result 0, [2, 3, 0])] := by decide
+
+example : Function.Injective (id : Nat → Nat) := fun _ _ h => h
+
 end AHP.C15
